@@ -34,8 +34,16 @@ IndexItemEquals(a, b, opts) ==
   /\ (opts.name => a.name = b.name)
   /\ (opts.dtype => a.dt = b.dt)
   /\ IndexEquals(a.index, b.index, opts)
+(* a Bus: its labels, and label by label the Frames it holds, each compared under the SAME options *)
+BusEquals(a, b, opts) ==
+  /\ (opts.class => a.cls = b.cls)
+  /\ Len(a.frames) = Len(b.frames)
+  /\ (opts.name => a.name = b.name)
+  /\ IndexEquals(a.index, b.index, opts)
+  /\ \A i \in 1..Len(a.frames) : FrameEquals(a.frames[i], b.frames[i], opts)
 Equals(a, b, opts) == IF a.kind # b.kind THEN FALSE ELSE IF a.kind = "series" THEN SeriesEquals(a, b, opts)
-                      ELSE IF a.kind = "index" THEN IndexItemEquals(a, b, opts) ELSE FrameEquals(a, b, opts)
+                      ELSE IF a.kind = "index" THEN IndexItemEquals(a, b, opts)
+                      ELSE IF a.kind = "bus" THEN BusEquals(a, b, opts) ELSE FrameEquals(a, b, opts)
 
 (* TypeBlocks.equals as built: shape, optional dtype list, block-wise ==, then every position where BOTH sides   *)
 (* are missing (NaN/NaT, not None) is set to True; MaskBug reproduces the defect repaired by the fix: commit      *)
